@@ -1,4 +1,12 @@
-(* PINNED STATEMENTS of the server-side monitor theorems that are still open.  No proofs here.
+(* PINNED STATEMENTS of the server-side monitor theorems.  No proofs here.  ALL ARE PROVED:
+     stmt_s_v08, stmt_s_v04, stmt_s08, stmt_s04            ServerProofsPA4 (invariant InvH: PA0-PA3)
+     stmt_s_v12a / _v12b / _v12c(_rel), stmt_s12(_rel)     ServerProofsPB1 / PB2 / PB4, PB6
+     stmt_s_v06l(_rel), stmt_s06(_rel)                     ServerProofsPB5, PB6
+     stmt_s_v09, stmt_s09, stmt_s_v11(_rel), stmt_s11(_rel)   ServerProofsPC9a/b, PC11, PC2, PC3
+     stmt_s_v10, stmt_s10                                  ServerProofsPC10
+   (flag level -> monitor level: ServerSpecGlue.v), restated as the *_monitor theorems of
+   Properties/C04, C06, C08, C09, C10, C11, C12; through tarpc's own execute() adapter, with
+   h_stop discharged: ServerExecProofs2.v.
 
    Each stmt_sXX below is the exact full-strength statement "the monitor accepts the trace of EVERY
    run of the model": every transport (any state type T, any behaviour tp), every environment ctl
@@ -12,7 +20,8 @@
      c_k1   = freed_in_same_poll            (K1, ServerWitness.k1_witness)
      c_k2   = limiter_blocked_on_sink       (K2, ServerWitness.k2_witness)
 
-   ALREADY PROVED (start from these; do not re-prove):
+   PROOF PLAN as it was handed to the provers (carried out in ServerProofsP*.v).  The foundations
+   they started from:
      ServerSim6.run_top        Top (orun lim o ops tr) s' /\ hb_ok s' along every run, where
                                Top o s := h_stop -> InvU o s /\ no_thr s /\ (c_err = false ->
                                handled s /\ (not dropped -> o_gauge o = |s_inflight s|));
@@ -33,7 +42,7 @@
                                <= L after a yield, in every reachable state (model only).
      ServerTrace.run_from_trace       every yield carries the request last read.
 
-   The flag-level statements stmt_s_v* are the units of work; the monitor-level statements
+   The flag-level statements stmt_s_v* were the units of work; the monitor-level statements
    stmt_s08 ... stmt_s10 follow from them and server_never_early by unfolding the monitors
    (Section Monitors of ServerMon.v).  Every statement was evaluated with vm_compute on generated
    scripts (Checks/SrvSpecTest.v: verdict 0 on every case = no pinned statement is false there). *)
@@ -56,6 +65,9 @@ Definition every_run_mon (m : forall C : Type, cfg -> list (op C) -> list (list 
     m C c ops (fst (run tp ctl tfuel c t0 ops)).
 
 (* ---- flag level ---------------------------------------------------------------------------- *)
+
+(* The comments on the flag-level statements below are the proof plans written before the proofs
+   ("Needs ...", "Start: ..."); each was carried out in the file named in the header. *)
 
 (* C08 (yields / duplicates / responses match the requests read).
    Needs the hypothesis-dependent half of the invariant, to hold while h_b1 && h_stop:
@@ -92,7 +104,8 @@ Definition stmt_s_v06l : Prop :=
   every_run (fun v => h_b1 v = true -> h_stop v = true -> c_k2 v = false -> v06l v = true).
 
 (* C12 (a): after a yield at most L in flight.  Model-only fact already proved
-   (ServerState.run_from_keys, C12_server_yield_within_limit); missing link: the gauge `a` the
+   (ServerState.run_from_keys, ServerProps.C12_server_yield_within_limit = Properties C12_yield_within_limit);
+   link needed (proved in ServerProofsPB1): the gauge `a` the
    observer checks in ostep is the model's |s_inflight| (it is: gauges s1). *)
 Definition stmt_s_v12a : Prop := every_run (fun v => v12a v = true).
 (* C12 (b): a throttle reply answers the request just read.  "throttle flags decided mid-poll":
